@@ -6,6 +6,7 @@ import (
 	"errors"
 	"fmt"
 	"io"
+	"net"
 	"os"
 	"runtime"
 	"sort"
@@ -32,7 +33,8 @@ type E1Op struct {
 	Carrier string `json:"carrier,omitempty"` // write: message carrier
 	Poison  bool   `json:"poison,omitempty"`  // overwrite the caller's buffer right after the call returns
 	N       int    `json:"n,omitempty"`
-	Text    string `json:"text,omitempty"` // feed: the bytes to deliver (instead of N filler bytes)
+	Text    string `json:"text,omitempty"`  // feed: the bytes to deliver (instead of N filler bytes)
+	Empty   bool   `json:"empty,omitempty"` // readfrom: the source returns (0, nil) before every fragment
 }
 
 type E1Task struct {
@@ -223,6 +225,9 @@ func closeErrOf(kind string, id int) error {
 		return fmt.Errorf("verif: upstream #%d: %w", id, &mock.NetErr{Msg: "verif: wrapped close net error"})
 	case "timeout":
 		return &mock.NetErr{Msg: fmt.Sprintf("verif: close timeout #%d", id), TO: true}
+	case "wrapped-errclosed":
+		// e.g. a relay that closes this channel with the error of its other, already closed connection
+		return fmt.Errorf("verif: backend #%d: %w", id, net.ErrClosed)
 	case "deadline":
 		return context.DeadlineExceeded
 	case "os-deadline":
@@ -232,7 +237,7 @@ func closeErrOf(kind string, id int) error {
 }
 
 // closeErrKinds: every kind of value a caller may hand to Close ("whatever error value - including nil - Close was given").
-var closeErrKinds = []string{"nil", "nil", "sentinel", "wrapped", "eof", "neterr", "wrapped-neterr", "timeout", "deadline", "os-deadline"}
+var closeErrKinds = []string{"nil", "nil", "sentinel", "wrapped", "eof", "neterr", "wrapped-neterr", "timeout", "deadline", "os-deadline", "wrapped-errclosed"}
 
 func (r *e1Run) senders() []*sched.Task {
 	var out []*sched.Task
@@ -554,7 +559,7 @@ func (r *e1Run) doWrite(ti, oi int, op E1Op, td *e1TaskData, backing []byte) {
 		case "ctxwritev":
 			call.N, call.Err = r.ch.CtxWritev(ctx, segs)
 		case "readfrom":
-			call.N, call.Err = r.ch.ReadFrom(&shortReader{data: append([]byte{}, buf...), step: imax(1, op.N)})
+			call.N, call.Err = r.ch.ReadFrom(&shortReader{data: append([]byte{}, buf...), step: imax(1, op.N), empty: op.Empty})
 		case "write":
 			msg, _ := e1Message(op.Carrier, buf, call.ID)
 			call.Err = r.ch.Write(msg)
